@@ -210,6 +210,55 @@ Section C06.
     destruct (lo_status (load_raw ro l)) eqn:S; [contradiction| |]; rewrite ?S; auto.
   Qed.
 
+  (* -------------------------------------------------------------- NodeReifier *)
+
+  Notation load_h := (load_h hasher_ok hash decoders).
+  Notation reifier_handle := (reifier_handle hasher_ok hash decoders).
+
+  (* the reifier is handed the link system the call was made on — same TrustedStorage, same opener *)
+  Lemma reifier_handle_is_users rm f h l h' : reifier_handle rm f h l = Some h' -> h' = h.
+  Proof.
+    unfold LinkSys.reifier_handle. destruct rm; [discriminate| |];
+      destruct (reifies f && _); intros E; inversion E; auto.
+  Qed.
+
+  (* ... only by Load and LoadPlusRaw, and only after the load itself succeeded *)
+  Lemma reifier_invoked_only_after_ok rm f h l h' :
+    reifier_handle rm f h l = Some h' ->
+    (f = FLoad \/ f = FLoadPlusRaw) /\ lo_status (load_any f (h_trusted h) (h_open h l) l) = SOk.
+  Proof.
+    unfold LinkSys.reifier_handle, status_ok. destruct rm; [discriminate| |];
+      (destruct f; cbn [reifies andb]; try discriminate;
+       destruct (lo_status _); try discriminate; auto).
+  Qed.
+
+  Lemma load_h_ok rm f h l :
+    lo_status (load_h rm f h l) = SOk ->
+    load_h rm f h l = load_any f (h_trusted h) (h_open h l) l.
+  Proof.
+    unfold LinkSys.load_h. destruct rm; auto.
+    destruct (reifies f && status_ok _); [discriminate|auto].
+  Qed.
+
+  (* C06_sound for every load made through a handle the library handed to a reifier — during the
+     outer call or at any later time: unless the USER declared the storage trusted, such a load
+     that reports success was given a complete stream that verifies against the link *)
+  Theorem reifier_loads_sound rm f h l h' rm' f' l' :
+    reifier_handle rm f h l = Some h' ->
+    h_trusted h = false ->
+    lo_status (load_h rm' f' h' l') = SOk ->
+    exists chunks,
+      h_open h l' = RStream chunks TEof /\
+      verify l' (concat chunks) = VOk /\
+      (forall n, lo_node (load_h rm' f' h' l') = Some n ->
+         exists c p e, decoders (lp_codec (link_proto l')) = Some c /\ c_dec c (concat chunks) = Some (n, p, e)) /\
+      (forall raw, lo_raw (load_h rm' f' h' l') = Some raw -> raw = concat chunks).
+  Proof.
+    intros R T S. apply reifier_handle_is_users in R. subst h'.
+    pose proof (load_h_ok _ _ _ _ S) as E. rewrite E in S |- *. rewrite T in S |- *.
+    exact (sound f' (h_open h l') l' S).
+  Qed.
+
   (* -------------------------------------------------------------- store side *)
 
   (* C06_store_atomic: a store that does not report success leaves the storage as it was *)
